@@ -125,6 +125,9 @@ class GramCD(BaseSolver):
                 w_acc, grad_acc, is_extrapolated = accelerator.extrapolate(w, grad)
 
                 if is_extrapolated:
+                    # the extrapolated gradient suffers from cancellation errors:
+                    # recompute it from the current gradient and the change in w
+                    grad_acc = grad + scaled_gram @ (w_acc - w)
                     # omit constant term for comparison
                     p_obj_acc = (0.5 * w_acc @ (scaled_gram @ w_acc) -
                                  scaled_Xty @ w_acc + penalty.value(w_acc))
